@@ -777,8 +777,19 @@ def pairpre_summary(I, st, callee, args, ret):
             s.add_eq(x.e - b)
 
 
+AFFIX = re.compile(r'^arch::all::is_(suffix|prefix)$')
+
+
 def _assume_post1(I, fr, st, callee, args, ret):
     outs = []
+    m = AFFIX.match(callee.path)
+    if m and len(args) == 2 and all(isinstance(a, SliceV) for a in args):
+        # the answer of a cut is_suffix / is_prefix call: an uninterpreted truth value that remembers WHICH ranges were
+        # compared (the Two-Way period classification is checked against it: PERIOD-TEST)
+        h, n = args
+        s_ = st.store
+        ret = BoolV(('pred', True, 'affix', (m.group(1), h.ptr.r, s_.nf(h.ptr.off), s_.nf(h.n), n.ptr.r, s_.nf(n.ptr.off), s_.nf(n.n))))
+        return [(st, ret)]
     for s, r in expand(I, st, ret):
         e3_summary(I, s, callee, args, r)
         pairpre_summary(I, s, callee, args, r)
@@ -1109,6 +1120,16 @@ def memo_roles(inst):
     return _ROLES[inst.key]
 
 
+def on_memo_return(I, fr, st, ret):
+    """a small-period Two-Way loop returns: remember how much of the needle its shift memory vouched for"""
+    roles = memo_roles(fr.inst)
+    if not roles or not (isinstance(ret, AdtV) and ret.variant == 1):
+        return
+    sh = st.frames.get(fr.fid, {}).get(roles['shift'])
+    if isinstance(sh, IntV):
+        st.ghost['memo_ret_shift'] = (lookup(MEMO_LOOPS, fr.inst.path)[1], st.store.nf(sh.e))
+
+
 def memo_pos_local(inst):
     if not lookup(MEMO_LOOPS, inst.path):
         return None
@@ -1182,7 +1203,44 @@ def _memo_roles(inst):
     return roles
 
 
+SUFFIX_LOOPS = re.compile(r'^arch::all::twoway::Suffix::(forward|reverse)$')
+
+
+def suffix_transfer(I, fr, h, body, H, backs):
+    """maximal/minimal suffix computation: per iteration either the comparison offset advances by one with the candidate
+    unchanged, or the candidate start moves and the comparison restarts at offset 0"""
+    names = _named_locals(fr.inst)
+    if 'candidate_start' not in names or 'offset' not in names:
+        I.ob('SUFFIX-STEP', fr, fr.inst.loc, 'suffix scan: variables candidate_start / offset identified', False, f'debug names: {sorted(names)}')
+        return
+    hl = H.frames.get(fr.fid, {})
+    csH, ofH = hl.get(names['candidate_start']), hl.get(names['offset'])
+    if not (isinstance(csH, IntV) and isinstance(ofH, IntV)):
+        I.ob('SUFFIX-STEP', fr, fr.inst.loc, 'suffix scan: loop state tracked', False, '')
+        return
+    fwd = fr.inst.path.endswith('::forward')
+    label = ('suffix scan: after an iteration offset\' == offset + 1 with the candidate unchanged, or the candidate start moved '
+             + ('forward' if fwd else 'backward') + ' and offset\' == 0')
+    for B in backs:
+        if not (B.store.is_sat() and B.store.check_sat()):
+            continue
+        bl = B.frames.get(fr.fid, {})
+        csB, ofB = bl.get(names['candidate_start']), bl.get(names['offset'])
+        if not (isinstance(csB, IntV) and isinstance(ofB, IntV)):
+            I.ob('SUFFIX-STEP', fr, fr.inst.loc, label, False, 'candidate_start / offset not tracked on a back edge')
+            continue
+        s = B.store
+        same = s.entails_eq(csB.e - csH.e) and s.entails_eq(ofB.e - ofH.e - 1)
+        moved = (s.entails_le(csH.e + 1 - csB.e) if fwd else s.entails_le(csB.e + 1 - csH.e)) and s.entails_eq(ofB.e)
+        ok = same or moved
+        I.ob('SUFFIX-STEP', fr, fr.inst.loc, label, ok,
+             '' if ok else f"back edge with candidate_start' - candidate_start = {s.nf(csB.e - csH.e)}, offset' = {s.nf(ofB.e)}, offset = {s.nf(ofH.e)}")
+
+
 def loop_transfer(I, fr, h, body, H, backs):
+    if SUFFIX_LOOPS.match(fr.inst.path):
+        suffix_transfer(I, fr, h, body, H, backs)
+        return
     row = lookup(MEMO_LOOPS, fr.inst.path)
     if not row:
         return
@@ -1337,12 +1395,27 @@ def _check_verified_leaf(I, inst, results, args):
             continue
         if not (isinstance(ret, AdtV) and ret.variant == 1 and isinstance(ret.fields[0], IntV)):
             continue
-        if row[1] == 'large-only' and not _tw_is_large(I, st, follow(I, st, args[0])):
-            continue
         if st.store.entails_le(nd.n):
             continue            # empty needle: nothing to compare
-        n_some += 1
         i = ret.fields[0].e
+        if row[1] == 'large-only' and not _tw_is_large(I, st, follow(I, st, args[0])):
+            # small period: everything the shift memory does NOT vouch for was compared
+            ms = st.ghost.get('memo_ret_shift')
+            if ms is None:
+                I.ob('POST-VERIFIED', fr, inst.loc, 'small period: shift memory at the match recorded', False, 'no small-period return recorded on this path')
+                continue
+            mode, sh = ms
+            if mode == 'fwd':       # memory vouches for needle[..shift]: needle[shift..] must have been compared
+                ok = eqg.covered(st, nd.ptr.r, nd.ptr.off + sh, hs.ptr.r, hs.ptr.off + i + sh, nd.n - sh)
+                lab = 'small period: Some(i) => needle[shift..] was compared equal with haystack[i+shift..i+needle.len()]'
+            else:                   # memory vouches for needle[shift..]: needle[..shift] must have been compared
+                ok = eqg.covered(st, nd.ptr.r, nd.ptr.off, hs.ptr.r, hs.ptr.off + i, sh)
+                lab = 'small period (reverse): Some(i) => needle[..shift] was compared equal with haystack[i..i+shift]'
+            n_some += 1
+            I.ob('POST-VERIFIED', fr, inst.loc, lab, ok,
+                 '' if ok else f"compared-equal interval {eqg.get(st, *sorted((nd.ptr.r, hs.ptr.r)))} (either orientation), shift = {st.store.nf(sh)}, offset {st.store.nf(i)}")
+            continue
+        n_some += 1
         ok = eqg.covered(st, nd.ptr.r, nd.ptr.off, hs.ptr.r, hs.ptr.off + i, nd.n)
         I.ob('POST-VERIFIED', fr, inst.loc, 'Some(i) => needle[..] was compared equal with haystack[i..i+needle.len()]', ok,
              '' if ok else f"compared-equal interval {eqg.get(st, *sorted((nd.ptr.r, hs.ptr.r)))} (either orientation) does not cover the needle at offset {st.store.nf(i)}")
@@ -1481,3 +1554,54 @@ def check_iter_post(I, inst, results, args):
                     ok2, lab = False, 'next (rev): case i < pos / i == pos determined'
                 I.ob('IT-TRANSFER', fr, inst.loc, lab, ok2, '' if ok2 else f"pos' = {npos}, i = {s.nf(x.e)}, pos = {s.nf(oval)}")
     I.ob('IT-TRANSFER', fr, inst.loc, f'{meth}: at least one path examined', n_checked > 0, f'{n_checked} path(s)')
+
+
+# ------------------------------------------------------------------ Two-Way period classification (PERIOD-TEST)
+PERIOD_ROOTS = re.compile(r'^arch::all::twoway::(Finder|FinderRev)::new$')
+
+
+def check_period_test(I, inst, results, args):
+    """`Shift::Small { period }` may only be chosen when the needle x = u v really has the period of the chosen suffix,
+    which Two-Way decides by ONE comparison: forward  is_suffix(v[..period], u)   with u = x[..crit], v = x[crit..];
+    reverse  is_prefix(v[v.len()-period..], u)  with v = x[..crit], u = x[crit..].  Every affix comparison made on the
+    path must be that one (a wrong `false` picks the large shift for a periodic needle and skips matches), and a Small
+    result needs it answered `true`."""
+    if not PERIOD_ROOTS.match(inst.path) or not args or not isinstance(args[0], SliceV):
+        return
+    fr = _Fr(inst)
+    fwd = '::Finder::' in inst.path
+    nd = args[0]
+    n_small = 0
+    for st, ret in results:
+        if not (st.store.is_sat() and st.store.check_sat()):
+            continue
+        try:
+            tw = ret.fields[0]
+            crit, shift = tw.fields[1].e, tw.fields[2]
+        except (AttributeError, IndexError, TypeError):
+            I.ob('PERIOD-TEST', fr, inst.loc, 'two-way value tracked', False, f'{ret}')
+            continue
+        s = st.store
+        preds = [(k[1], v) for k, v in st.ghost.get('preds', {}).items() if k[0] == 'affix']
+        small = shift.variant == 0
+        per = shift.fields[0].e if small else None
+
+        def expected(a, period):
+            kind, hr, ho, hn, nr, no, nn = a
+            if hr != nd.ptr.r or nr != nd.ptr.r:
+                return False
+            if fwd:
+                return (kind == 'suffix' and s.entails_eq(ho - (nd.ptr.off + crit)) and s.entails_eq(no - nd.ptr.off) and s.entails_eq(nn - crit)
+                        and (period is None or s.entails_eq(hn - period)))
+            return (kind == 'prefix' and s.entails_eq(no - (nd.ptr.off + crit)) and s.entails_eq(nn - (nd.n - crit))
+                    and s.entails_eq(ho + hn - (nd.ptr.off + crit)) and (period is None or s.entails_eq(hn - period)))
+        for a, val in preds:
+            ok = expected(a, per)
+            I.ob('PERIOD-TEST', fr, inst.loc, 'the period test compares ' + ('v[..period] against u as a suffix' if fwd else 'the last `period` bytes of v against u as a prefix'), ok,
+                 '' if ok else f"is_{a[0]}(x[{s.nf(a[2])}..+{s.nf(a[3])}], x[{s.nf(a[5])}..+{s.nf(a[6])}]) with critical_pos = {s.nf(crit)}")
+        if small:
+            n_small += 1
+            ok = any(val and expected(a, per) for a, val in preds)
+            I.ob('PERIOD-TEST', fr, inst.loc, 'Shift::Small is chosen only after the period test answered true', ok,
+                 '' if ok else f'affix comparisons on this path: {[(a[0], v) for a, v in preds]}')
+    I.ob('PERIOD-TEST', fr, inst.loc, 'a small-period path exists (non-vacuous)', n_small > 0, f'{n_small} path(s) return Shift::Small')
